@@ -52,5 +52,5 @@ Definition child_lookup_arg_presence : name_src := NsChild.
 Definition wildcard_lookup_arg_message : name_src := NsZero.
 Definition wildcard_lookup_arg_presence : name_src := NsZero.
 Definition bufreader_buffers_token_with_error : bool := true. (* a token that comes with an error is appended to the buffer all the same *)
-Definition servemux_fields_touched_after_new : list bytes := [hex "7265706c6179"]. (* replay *)
-Definition forchildren_buffer_is_local : bool := false. (* buf: <*ast.SliceExpr> *)
+Definition servemux_fields_touched_after_new : list bytes := []. (*  *)
+Definition forchildren_buffer_is_local : bool := true. (* buf: make(<*ast.ArrayType>,0,10) *)
